@@ -64,6 +64,22 @@ type Script struct {
 	// Calls > 1: when Connect returns for a reason other than its context, it is called again on
 	// the same Connection, up to Calls times in total (each call is a reconnection attempt too)
 	Calls int `json:"calls,omitempty"`
+	// Cause: the request context carries a cancellation cause (WithCancelCause / WithTimeoutCause):
+	// its Err() is still Canceled / DeadlineExceeded. ReportCause: the transport and the response
+	// body then report context.Cause(ctx) instead of ctx.Err() - as net/http's Transport does
+	// since Go 1.23.
+	Cause       bool `json:"cause,omitempty"`
+	ReportCause bool `json:"reportcause,omitempty"`
+}
+
+var errCtxCause = errors.New("harness: the cause the request context ended with")
+
+// ctxErrOf is the error the scripted transport reports for a finished request context.
+func (sc Script) ctxErrOf(ctx context.Context) error {
+	if sc.Cause && sc.ReportCause {
+		return context.Cause(ctx)
+	}
+	return ctx.Err()
 }
 
 // ---------------------------------------------------------------------------------------
@@ -165,6 +181,7 @@ type scriptedBody struct {
 	data   string
 	t0     time.Time
 	hung   bool
+	ctxErr func(context.Context) error
 }
 
 func (b *scriptedBody) Read(p []byte) (int, error) {
@@ -203,10 +220,10 @@ func (b *scriptedBody) Read(p []byte) (int, error) {
 			b.cancel()
 		}
 		<-b.ctx.Done()
-		return 0, b.ctx.Err()
+		return 0, b.ctxErr(b.ctx)
 	case "deadline", "cbcancel":
 		<-b.ctx.Done()
-		return 0, b.ctx.Err()
+		return 0, b.ctxErr(b.ctx)
 	default:
 		return 0, io.EOF
 	}
@@ -255,9 +272,15 @@ func run(t *testing.T, sc Script, setup func(conn *sse.Connection, tr *Trace)) (
 		t0 := time.Now()
 		var ctx context.Context
 		var cancel context.CancelFunc
-		if sc.DeadlineMs > 0 {
+		switch {
+		case sc.DeadlineMs > 0 && sc.Cause:
+			ctx, cancel = context.WithTimeoutCause(context.Background(), time.Duration(sc.DeadlineMs)*time.Millisecond, errCtxCause)
+		case sc.DeadlineMs > 0:
 			ctx, cancel = context.WithTimeout(context.Background(), time.Duration(sc.DeadlineMs)*time.Millisecond)
-		} else {
+		case sc.Cause:
+			c, cc := context.WithCancelCause(context.Background())
+			ctx, cancel = c, func() { cc(errCtxCause) }
+		default:
 			ctx, cancel = context.WithCancel(context.Background())
 		}
 		defer cancel()
@@ -344,7 +367,7 @@ func run(t *testing.T, sc Script, setup func(conn *sse.Connection, tr *Trace)) (
 				case <-r.Context().Done():
 					obs.answered = time.Since(t0)
 					tr.attempts = append(tr.attempts, obs)
-					return nil, r.Context().Err()
+					return nil, sc.ctxErrOf(r.Context())
 				}
 			}
 			obs.answered = time.Since(t0)
@@ -357,11 +380,11 @@ func run(t *testing.T, sc Script, setup func(conn *sse.Connection, tr *Trace)) (
 					tr.cancelledAt = time.Since(t0)
 				}
 				cancel()
-				return nil, r.Context().Err()
+				return nil, sc.ctxErrOf(r.Context())
 			case "reject":
 				return &http.Response{StatusCode: 503, Header: http.Header{}, Body: io.NopCloser(strings.NewReader("")), Request: r}, nil
 			}
-			body := &scriptedBody{tr: tr, a: a, ctx: r.Context(), cancel: cancel, t0: t0}
+			body := &scriptedBody{tr: tr, a: a, ctx: r.Context(), cancel: cancel, t0: t0, ctxErr: sc.ctxErrOf}
 			return &http.Response{StatusCode: 200, Header: http.Header{"Content-Type": {"text/event-stream"}}, Body: body, Request: r}, nil
 		})}
 		for i := 0; i < sc.NthConn; i++ {
